@@ -589,6 +589,10 @@ func c7Label(c *Cfg, ctx *cue.Context, s string) {
 			kind = "str"
 		}
 		c.Op("I", "plabel "+kind+" "+H(text), c7readLabel(text))
+		// the exporter's own label (exporter.stringLabel through Value.Syntax, value mode)
+		if xa := c7exportedLabel(ctx, s); xa != "" {
+			c.Op("I", "xlabel "+H(s), xa)
+		}
 	}
 	c.Case("label "+s, s != "")
 	// Direct: through the evaluator and the exporter, nested and (not first) at file level
@@ -625,6 +629,34 @@ func c7Label(c *Cfg, ctx *cue.Context, s string) {
 			c.Direct(ok, cls, fmt.Sprintf("label %q (%s, profile %s): %s", s, form.name, pf, detail), map[string]any{"p": form.src, "profile": pf, "output": out})
 		}
 	}
+}
+
+// c7exportedLabel: the label node Value.Syntax(Final) builds for the field named s.
+func c7exportedLabel(ctx *cue.Context, s string) (ans string) {
+	defer func() {
+		if recover() != nil {
+			ans = ""
+		}
+	}()
+	v := ctx.CompileString("x: {" + literal.String.Quote(s) + ": 1}")
+	if v.Err() != nil {
+		return ""
+	}
+	st, ok := v.LookupPath(cue.ParsePath("x")).Syntax(cue.Final()).(*ast.StructLit)
+	if !ok || len(st.Elts) != 1 {
+		return ""
+	}
+	f, ok := st.Elts[0].(*ast.Field)
+	if !ok {
+		return ""
+	}
+	switch x := f.Label.(type) {
+	case *ast.Ident:
+		return "id " + H(x.Name)
+	case *ast.BasicLit:
+		return "str " + H(x.Value)
+	}
+	return ""
 }
 
 func c7labelRT(v cue.Value, opts []cue.Option, path, want string) (ok bool, detail, out string) {
